@@ -51,7 +51,7 @@ def run_variant(prop: str, v: "variants.Variant", tier: str) -> dict:
         prog = Program(src, root="<corpus:" + v.vid + ">")
         # variants show that a rule is alive / not brittle: the quick configuration set suffices
         ctx = analyse(prog, prop, "quick")
-        viol = [o for o in ctx.violations]
+        viol = [o for o in ctx.new_violations]
         und = ctx.undecideds
         res = {
             "id": v.vid,
@@ -236,9 +236,9 @@ def cmd_selftest(props: list[str]) -> int:
         try:
             base = Program(variants.base_sources(), root="<corpus:base>")
             ctx = analyse(base, prop, "thorough")
-            if ctx.violations or ctx.undecideds:
+            if ctx.new_violations or ctx.undecideds:
                 bad_total += 1
-                print(f"{prop} BASE not silent: " + "; ".join(o.line() for o in ctx.violations + ctx.undecideds))
+                print(f"{prop} BASE not silent: " + "; ".join(o.line() for o in ctx.new_violations + ctx.undecideds))
         except Exception as e:
             bad_total += 1
             print(f"{prop} BASE error {type(e).__name__}: {e}")
